@@ -189,10 +189,89 @@ let run_pool (args : string list) : string =
     String.concat " ; " (List.rev !mout) ^ " | " ^ (if with_spec then String.concat " ; " (List.rev !sout) else "-")
   | _ -> failwith "pool case"
 
+(* ---- third part: histories of FRAMES through slicing model + frag_key_of + pool model (pk_step);
+   Spec side: the wire key (wire_frag_of) + spec_process ---- *)
+let hexs (l : n list) = if l = [] then "-" else String.concat "" (List.map (fun b -> Printf.sprintf "%02x" (int_of_n b)) l)
+
+let entry_of (s : string) : entry =
+  match s with
+  | "eth" -> EEthernet
+  | "sll" -> ELinuxSll
+  | "ip" -> EIp
+  | _ when String.length s > 2 && String.sub s 0 2 = "et" ->
+    EEtherType (n_of_int (int_of_string (String.sub s 2 (String.length s - 2))))
+  | _ -> failwith "entry"
+
+(* canonical rendering of (IpFragId, offset, more_fragments, payload window) *)
+let key_str (id : frag_id) (fo : n) (mf : bool) (w : n * n) : string =
+  let (ver, src, dst, ident) = match id.fi_ip with
+    | IdV4 (s, d, i) -> ("4", s, d, i)
+    | IdV6 (s, d, i) -> ("6", s, d, i) in
+  Printf.sprintf "%s/%s/%s/%s/%s/%s/%s:%s:%d:%s+%s" ver
+    (if id.fi_vlans = [] then "-" else String.concat "." (List.map s_of_n id.fi_vlans))
+    (hexs src) (hexs dst) (s_of_n ident) (s_of_n id.fi_ipn) (s_of_n id.fi_chan)
+    (s_of_n fo) (if mf then 1 else 0) (s_of_n (fst w)) (s_of_n (snd w))
+
+let run_pk (ops : string list) : string =
+  let p = ref pool_new and sp = ref [] in
+  let held = ref [] in
+  let mout = ref [] and sout = ref [] in
+  List.iter (fun o ->
+      (match colon o with
+       | ["k"; _label; ent; chan; ts; h] ->
+         let e = entry_of ent in
+         let bs = bytes_of_hex h in
+         let chan = n_of_int (int_of_string chan) and ts = n_of_int (int_of_string ts) in
+         (* model: the extracted pk_step (slice_with, frag_key_of, process) *)
+         let (sl, key) = match slice_with e bs with
+           | Ok sp' -> ("sl", (match frag_key_of sp' chan with
+               | Ok (Some k) ->
+                 let s = k.fk_payload.ipp_slice in
+                 key_str k.fk_id k.fk_fo k.fk_mf (fst s, n_of_int (List.length (snd s)))
+               | Ok None -> "-"
+               | Err _ -> "ERR"
+               | Bug b -> "BUG" ^ s_of_n b))
+           | Err _ -> ("unsl", "-")
+           | Bug b -> ("BUG" ^ s_of_n b, "-") in
+         (match pk_step !p (KPacket (e, bs, ts, chan)) with
+          | Ok ((_, r), p') ->
+            p := p';
+            (match r with PDone (_, _, pl) -> held := pl :: !held | _ -> ());
+            mout := Printf.sprintf "%s key=%s %s" sl key (pres_str r) :: !mout
+          | Err _ -> mout := "MODEL-ERR" :: !mout
+          | Bug b -> mout := ("MODEL-BUG" ^ s_of_n b) :: !mout);
+         (* Spec: the wire key and the reassembly specification *)
+         (match wire_frag_of e bs chan with
+          | Some w ->
+            let id = w.wf_id in
+            let k = { k_id = encode_id id; k_v4 = id_is_v4 id.fi_ip; k_ipn = id.fi_ipn; k_frag = frag_of_wire bs w } in
+            let (sr, sp') = spec_process !sp k ts in
+            sp := sp';
+            sout := Printf.sprintf "key=%s %s" (key_str id w.wf_fo w.wf_mf w.wf_win) (pres_str sr) :: !sout
+          | None -> sout := "key=- none" :: !sout)
+       | ["r"] ->
+         (match !held with
+          | pl :: tl -> held := tl; p := return_buf !p pl; mout := "ret1" :: !mout
+          | [] -> mout := "ret0" :: !mout);
+         sout := "-" :: !sout
+       | ["rf"; h] ->
+         p := return_buf !p (List.map (fun x -> Some x) (bytes_of_hex h));
+         mout := "retf" :: !mout;
+         sout := "-" :: !sout
+       | _ -> failwith ("pk op " ^ o));
+      (match !mout with
+       | x :: tl -> mout := (x ^ " stats=" ^ stats_str !p) :: tl
+       | [] -> ());
+      (match !sout with
+       | x :: tl -> sout := (x ^ " act=" ^ string_of_int (List.length !sp)) :: tl
+       | [] -> ())) ops;
+  String.concat " ; " (List.rev !mout) ^ " | " ^ String.concat " ; " (List.rev !sout)
+
 let run (line : string) : string =
   match Conv.split_ws line with
   | "buf" :: args -> run_buf args
   | "pool" :: args -> run_pool args
+  | "pk" :: ops -> run_pk ops
   | _ -> failwith ("bad c11 case: " ^ line)
 
 let () =
